@@ -80,6 +80,14 @@ Theorem first_write_fills_image_partial : forall (P : Type) (fl : list P) xdim y
 Proof. intros P. exact (@first_write_covers_image_lemma P). Qed.
 Print Assumptions first_write_fills_image_partial.
 
+(** Palettes: GRreadlut with a requested interlace returns the closed-form permutation of the 256 x 3 entries
+    written (geometry 1 x nentries regenerated from GRreadlut); pixel and line interlace coincide. *)
+Theorem lut_read_correct : forall (A : Type) (d : A) lil (l dst : list A),
+    length l = 768 -> length dst = 768 ->
+    il_convert_walk ILpixel lil (lut_dimX 256) (lut_dimY 256) 3 1 l dst = il_convert_spec d ILpixel lil 1 256 3 1 l.
+Proof. intros A. exact (@lut_read_lemma A). Qed.
+Print Assumptions lut_read_correct.
+
 (** Non-vacuity and concrete instances. *)
 Example walk_line_to_pixel :
   il_convert_walk ILline ILpixel 3 2 2 1 [1;2;3;4;5;6;7;8;9;10;11;12] (repeat 0 12)
